@@ -13,7 +13,7 @@ import sys
 
 ROOT, OUT = sys.argv[1], sys.argv[2]
 ONLY = set(sys.argv[3:])
-WT = "/tmp/wt_verify_seeds"
+WT = os.environ.get("VERIFY_WT", "/tmp/wt_verify_seeds")
 EXTRA = {"C01/3": ["C04"], "C07/1": ["C08", "C19"], "C08/2": ["C19"], "C06/1": ["C13"], "C02/2": ["C04"], "C01/2": ["C04"], "C15/3": ["C08"]}
 
 
